@@ -2238,6 +2238,126 @@ def gen_oneshot_sub_replaced(seed, mode="loop"):
     return sc
 
 
+def gen_resub_dup(seed, mode="loop"):
+    """C04/C09: a topic subscribed with M_SRC_DUP (the library keeps its own copy of the topic string) is subscribed again with
+    other flags - the new subscription replaces the old one, whose copy is released - and the topic is then looked up again
+    and again (publish, subscribe, unsubscribe): nothing may still point into the released copy"""
+    r = random.Random(seed * 223 + 191)
+    sc = Sc(mode, "re-subscription of a duplicated topic with other flags seed=%d" % seed)
+    driven_skeleton(sc)
+    M, S2 = 1, 2
+    sc.mod(M, "subscriber", 0, 0)
+    sc.mod(S2, "sender", 0, 0)
+    sc.cb(M, "evt", "*", [])
+    sc.cb(S2, "evt", "*", [])
+    sc.main += [("reg", M), ("reg", S2), ("start", M), ("start", S2)]
+    tops = [sc.topic(t) for t in r.sample(["alpha", "beta", "gamma", "ab1", "ab2"], r.randrange(1, 4))]
+    flagsets = [SRC_DUP, SRC_DUP | SRC_HIGH, SRC_DUP | SRC_LOW, SRC_DUP | SRC_AUTOFREE, 0, SRC_HIGH, SRC_DUP | SRC_ONESHOT]
+    cur = {}
+    for t in tops:
+        cur[t] = r.choice([SRC_DUP, SRC_DUP, SRC_DUP | SRC_AUTOFREE, SRC_DUP | SRC_LOW])
+        sc.main.append(("sub", M, t, cur[t], sc.ud()))
+    steps = [[]]
+    for _ in range(r.randrange(2, 6)):
+        t = r.choice(tops)
+        nf = r.choice([f for f in flagsets if f != cur[t]])
+        cur[t] = nf
+        ops = [("sub", M, t, nf, sc.ud()), ("srclen", M)]
+        # lookups of the same and of the other topics
+        for _k in range(r.randrange(1, 4)):
+            x = r.random()
+            t2 = r.choice(tops)
+            if x < 0.4:
+                ops.append(("publish", S2, t2, sc.pay(), 0))
+            elif x < 0.7:
+                ops.append(("sub", M, t2, cur[t2], sc.ud()))        # same flags: updated in place
+            else:
+                ops.append(("srclen", M, 0))
+        steps.append(ops)
+        steps.append([])
+    steps.append([("unsub", M, t) for t in tops] + [("srclen", M)] + [("unsub", M, tops[0])])
+    steps += [[]]
+    driven_finish(sc, steps, rng=r)
+    finalize_main(sc)
+    return sc
+
+
+def gen_stash_corners(seed, mode="loop"):
+    """C16/C04: corners of the stash - unstash refused for lack of a token (several times in a row: nothing may be lost or left
+    behind), stash kept over pause but dropped by a stop that comes while the module is PAUSED (directly or through a poison
+    pill), then restart and unstash: only what was stashed after the restart comes back"""
+    r = random.Random(seed * 227 + 193)
+    variant = r.choice(["throttled_unstash", "pause_stop_restart", "pill_on_paused"])
+    sc = Sc(mode, "stash corners (%s) seed=%d" % (variant, seed))
+    driven_skeleton(sc)
+    T, S2 = 1, 2
+    sc.mod(T, "target", 0, r.choice([0, 4]))
+    sc.mod(S2, "sender", 0, 0)
+    sc.cb(T, "stop", "*", [])
+    sc.cb(S2, "evt", "*", [])
+    sc.main += [("reg", T), ("reg", S2), ("start", T), ("start", S2)]
+    n1 = r.randrange(1, 4)
+    for n in range(n1):
+        sc.cb(T, "evt", n, [("stash", -1, 0)])
+    tell = lambda: ("tell", S2, T, sc.pay(), 0)
+    steps = [[], [tell() for _ in range(n1)], [], [], []]
+    if variant == "throttled_unstash":
+        sc.cb(T, "evt", "*", [])
+        b = r.randrange(1, 3)
+        spend = [("bsize", T, 0) for _ in range(b + 1)]
+        steps.append([("tb", T, 1, b)] + spend + [("unstash", T, r.choice([1, 2, -1])) for _ in range(r.randrange(1, 4))])
+        steps.append([("tb", T, 0, 0), ("unstash", T, -1)])
+    else:
+        n2 = r.randrange(1, 3)
+        for n in range(n1, n1 + n2):
+            sc.cb(T, "evt", n, [("stash", -1, 0)])
+        sc.cb(T, "evt", "*", [])
+        steps.append([("pause", T)])
+        steps.append([("stop", T)] if variant == "pause_stop_restart" else [("pill", S2, T)])
+        steps += [[], [], []]
+        steps.append([("start", T)])
+        steps.append([tell() for _ in range(n2)])
+        steps += [[], [], []]
+        steps.append([("unstash", T, -1)])
+    steps += [[], [("unstash", T, -1)], []]
+    driven_finish(sc, steps, rng=r)
+    finalize_main(sc)
+    return sc
+
+
+def gen_pause_others_in_batch(seed, mode="loop"):
+    """C01/C04: three to five modules have mail in the same poll batch; the handler served first pauses (stops, deregisters)
+    all the others, in the order of their slots or the reverse: none of them is handed its pending event while not RUNNING"""
+    r = random.Random(seed * 229 + 197)
+    sc = Sc(mode, "handler served first takes the other recipients of the batch out seed=%d" % seed)
+    driven_skeleton(sc)
+    n = r.randrange(3, 6)
+    mods = list(range(1, n + 1))
+    what = r.choice(["pause", "pause", "stop", "dereg"])
+    rev = r.random() < 0.5
+    for i in mods:
+        sc.mod(i, "m%d" % i, 0, r.choice([0, 4]))
+        sc.cb(i, "stop", "*", [])
+        others = [j for j in mods if j != i]
+        if rev:
+            others.reverse()
+        sc.cb(i, "evt", 0, [(what, j) for j in others])
+        sc.cb(i, "evt", "*", [])
+        sc.main += [("reg", i), ("start", i)]
+    tl = sc.topic("alpha")
+    for i in mods:
+        sc.main.append(("sub", i, tl, 0, sc.ud()))
+    how = r.choice(["publish", "tell"])
+    burst = [("publish", DRV, tl, sc.pay(), 0)] if how == "publish" else [("tell", DRV, i, sc.pay(), 0) for i in mods]
+    steps = [[], burst, [], [], [], []]
+    if what == "pause":
+        steps.append([("resume", i) for i in mods])
+        steps += [[], []]
+    driven_finish(sc, steps, rng=r)
+    finalize_main(sc)
+    return sc
+
+
 _M64 = (1 << 64) - 1
 
 
